@@ -35,6 +35,9 @@ CLAIMED = {
  'C04': dict(engine='symexec+slices', technique='symbolic header length: the real get_header_size and AST slices of the padding/header-size/file-split expressions evaluated with the card count / block count as symbolic integers, decided by SMT; real record() into in-memory files parsed by an independent byte-level GUPPI parser and by the real readers under every listing permutation',
              text='For EVERY header length (symbolic card count <= 10^4) and every DIRECTIO spelling, z3 shows the writer pads to the next multiple of 512 iff DIRECTIO != 0 with no padding when aligned, and that every reader (get_header_size users, from_data, blimpy rule) skips exactly what the writer emits; file i holds blocks [i*bpf, min((i+1)bpf, n)) for symbolic n; configuration-owned cards cannot be overridden by arbitrary user values; recordings with 0..33 user cards x DIRECTIO absent/0/1 parse exactly into the requested blocks, PKTIDX advances by samples-per-block, and block counts are independent of listing order.',
              note='card text formatting exercised on concrete values only (symbolic int formatting not confirmed by CrossHair within budget)', ref='DESIGN.md section 4 C04'),
+ 'C16': dict(engine='symexec', technique='bounded symbolic execution of the real Cadence.add_signal/overwrite_times/slew_times/consolidate with symbolic start times and geometry, uninterpreted signal components; fault position enumerated (callback raising on frame k); bit-exact restoration decided in the delta model of binary64',
+             text='For cadences of 1..3 (thorough 4) frames, whole or sub-selected by slice / index list, and the option sets plain / integrate path+time / integrate f + smearing / integrate path + smearing, z3 shows for all start times, contents and callbacks that each member receives exactly the single-frame signal at its own times shifted by its start relative to the (sub)cadence first frame, non-members are untouched, every time axis is the original afterwards -- also when path, t_profile or f_profile raises on frame k for every k -- and bit-for-bit in binary64; overwrite_times gives slew_times == t_slew; consolidation concatenates data with absolute times.',
+             note='exact reals for signal values; delta model for ts restoration; frames <= 4', ref='DESIGN.md section 4 C16'),
 }
 NA = {}
 
